@@ -82,12 +82,28 @@ func (k *Kernel) FlagTerm(name string) *Term {
 	return r
 }
 
-// Completed: some path ran to the end (its guard).
+// Completed: some path ran to the end (its guard) without dying of a panic.
 func (k *Kernel) Completed() *Term {
 	B := k.E.B
 	r := B.False
 	for _, p := range k.Paths {
+		if n := len(p.Parks); n > 0 && p.Parks[n-1].Crash {
+			continue
+		}
 		r = B.Or(r, p.Guard)
+	}
+	return r
+}
+
+// Crashed: some path ends with a panic that nothing recovered (it left the
+// harness; on the real build the process dies).
+func (k *Kernel) Crashed() *Term {
+	B := k.E.B
+	r := B.False
+	for _, p := range k.Paths {
+		if n := len(p.Parks); n > 0 && p.Parks[n-1].Crash {
+			r = B.Or(r, p.Guard)
+		}
 	}
 	return r
 }
